@@ -135,6 +135,9 @@ pub struct WCfg {
     /// C13 differential: request labels of the baseline run (same scenario without the pass-through HTLCs)
     pub baseline_reqs: Option<Vec<String>>,
     pub max_depth: usize,
+    /// events (by label) applied before the exploration starts: the search begins in a non-initial state
+    pub prefix: Vec<String>,
+    pub info_cache: Arc<std::sync::OnceLock<BTreeMap<String, TrampolineInfo>>>,
     /// properties whose oracles are evaluated (others are monitored silently off)
     pub props: BTreeSet<&'static str>,
 }
@@ -176,6 +179,8 @@ impl WCfg {
             default_part_fails: false,
             baseline_reqs: None,
             max_depth: 90,
+            prefix: Vec::new(),
+            info_cache: Arc::new(std::sync::OnceLock::new()),
             props: BTreeSet::new(),
         }
     }
@@ -1685,20 +1690,29 @@ impl Model for W {
         let sim = SimNode::new(sim);
         let rpc_file = format!("sim-{}", WORLD_COUNTER.fetch_add(1, Ordering::Relaxed));
         verif_hook::register(&rpc_file, Arc::new(sim.clone()));
-        let mut infos = BTreeMap::new();
+        // parsed once per scenario (signature recovery is the most expensive step of building a world)
+        let infos: BTreeMap<String, TrampolineInfo> = cfg
+            .info_cache
+            .get_or_init(|| {
+                let mut infos = BTreeMap::new();
+                for inv in &cfg.invoices {
+                    // an invoice whose signature does not verify does not parse; it can never be stored or paid
+                    if let Ok(invoice) = inv.bolt11.parse::<lightning_invoice::Bolt11Invoice>() {
+                        let payee = invoice.recover_payee_pub_key();
+                        infos.entry(inv.hash_hex.clone()).or_insert(TrampolineInfo {
+                            bolt11: inv.bolt11.clone(),
+                            payee,
+                            amount_msat: inv.amount_msat.unwrap_or(0),
+                            routing_policy: cfg.policy(),
+                            invoice,
+                        });
+                    }
+                }
+                infos
+            })
+            .clone();
         let mut mon = BTreeMap::new();
         for inv in &cfg.invoices {
-            // an invoice whose signature does not verify does not parse; it can never be stored or paid
-            if let Ok(invoice) = inv.bolt11.parse::<lightning_invoice::Bolt11Invoice>() {
-                let payee = invoice.recover_payee_pub_key();
-                infos.entry(inv.hash_hex.clone()).or_insert(TrampolineInfo {
-                    bolt11: inv.bolt11.clone(),
-                    payee,
-                    amount_msat: inv.amount_msat.unwrap_or(0),
-                    routing_policy: cfg.policy(),
-                    invoice,
-                });
-            }
             mon.entry(inv.hash_hex.clone()).or_insert_with(HashMon::default);
         }
         for t in &cfg.templates {
@@ -1743,6 +1757,24 @@ impl Model for W {
         };
         w.boot();
         w.last_parts = w.sim.with(|s| s.parts.clone());
+        for l in cfg.prefix.iter() {
+            let evs = w.compute_events();
+            match evs.iter().position(|e| &e.1.label == l) {
+                Some(i) => {
+                    let ev = evs[i].0.clone();
+                    w.trace.push(format!("[prefix] {}", l));
+                    w.history.push(l.clone());
+                    w.free_choice = true;
+                    w.apply_ev(&ev);
+                }
+                None => {
+                    w.err = Some(format!("scenario prefix event {:?} is not enabled; enabled: {:?}", l, evs.iter().map(|e| e.1.label.clone()).collect::<Vec<_>>()));
+                    break;
+                }
+            }
+        }
+        // violations met while replaying the prefix belong to the scenarios that explore that part
+        w.violations.clear();
         // a seeded history must itself satisfy the write-ahead invariant, else the scenario is wrong
         w
     }
